@@ -53,6 +53,7 @@ type World struct {
 	Start  time.Time
 	Mute   bool // do not log reads (keeps long runs small)
 	OnStmt func(host, op, arg string) // hook called (without lock) before a statement is executed
+	OnDcs  func(client, op, path, res string) // hook called WITH the lock held when a coordination call is logged
 }
 
 type Repl struct {
@@ -88,6 +89,7 @@ type MyNode struct {
 	InstantRepl                      bool // replication progress is applied whenever the node is looked at
 	ReplMonTS                        string
 	ReplMonDelay                     int64
+	conns                            map[net.Conn]bool
 	Conns                            int // open connections (leak accounting)
 	TotalConns                       int
 	Killed                           []int
@@ -132,6 +134,24 @@ func (w *World) logEv(kind, host, op, arg, res string) {
 	w.Log = append(w.Log, Event{Seq: len(w.Log) + 1, T: w.now(), Kind: kind, Host: host, Op: op, Arg: arg, Res: res})
 }
 
+// Kill makes the node refuse new connections and severs the established ones (lock must NOT be held).
+func (w *World) Kill(host string) {
+	w.Mu.Lock()
+	n := w.Nodes[host]
+	var cs []net.Conn
+	if n != nil {
+		n.Alive = false
+		for c := range n.conns {
+			cs = append(cs, c)
+		}
+	}
+	w.logEv("env", host, "kill", "", "ok")
+	w.Mu.Unlock()
+	for _, c := range cs {
+		c.Close()
+	}
+}
+
 // Env records an adversary / scenario move in the same log.
 func (w *World) Env(op, host, arg string) {
 	w.Mu.Lock()
@@ -174,8 +194,12 @@ func (w *World) dial(ctx context.Context, addr string) (net.Conn, error) {
 	}
 	n.Conns++
 	n.TotalConns++
-	w.Mu.Unlock()
 	c, s := net.Pipe()
+	if n.conns == nil {
+		n.conns = map[net.Conn]bool{}
+	}
+	n.conns[s] = true
+	w.Mu.Unlock()
 	go w.serve(n, s)
 	return c, nil
 }
@@ -279,6 +303,7 @@ func (w *World) serve(n *MyNode, c net.Conn) {
 		c.Close()
 		w.Mu.Lock()
 		n.Conns--
+		delete(n.conns, c)
 		w.Mu.Unlock()
 	}()
 	p := &pconn{c: c}
@@ -795,6 +820,11 @@ type NodeDigest struct {
 func (w *World) Digest() []NodeDigest {
 	w.Mu.Lock()
 	defer w.Mu.Unlock()
+	return w.DigestNoLock()
+}
+
+// DigestNoLock is for hooks that already hold the lock.
+func (w *World) DigestNoLock() []NodeDigest {
 	var out []NodeDigest
 	for _, n := range w.Nodes {
 		d := NodeDigest{Host: n.Host, Alive: n.Alive, Hang: n.Hang, ReadOnly: n.ReadOnly, SuperReadOnly: n.SuperReadOnly, Offline: n.Offline,
